@@ -1,6 +1,7 @@
 package main
 
 import (
+	"encoding/json"
 	"flag"
 	"fmt"
 	"os"
@@ -70,8 +71,17 @@ func cmdCheck(args []string) int {
 	start := time.Now()
 	p, err := loadProg(*root)
 	if err != nil {
+		// The contracts no longer fit the code (a function, loop, local variable or
+		// import they mention changed): nothing can be proved, which is reported as
+		// an undecided obligation of the property, never as a pass.
 		fmt.Println("hvc: load error:", err)
-		return 2
+		dir := filepath.Join(envOr("HVC_REPLAYDIR", "/verif/replay"), *prop)
+		os.MkdirAll(dir, 0o755)
+		path := filepath.Join(dir, "contracts-do-not-typecheck.json")
+		data, _ := json.MarshalIndent(map[string]any{"property": *prop, "obligation": "contracts#typecheck", "reason": "the instrumented tree (code + contracts) does not load", "solver_output": err.Error()}, "", " ")
+		os.WriteFile(path, data, 0o644)
+		fmt.Printf("VIOLATION property=%s replay=%s obligation=contracts#typecheck reason=contracts-do-not-fit-the-code no-failing-input-found\n", *prop, path)
+		return 1
 	}
 	p.computeEffects()
 	units := unitsFor(p, *prop)
